@@ -100,7 +100,7 @@ def main():
         "engines": engines,
         "checks": checks,
         "not_applicable": na,
-        "notes": "Technique: deterministic simulation with fault injection. fix: commits in /repo: fc96a8a (C08), 3e88988 (C10), 4d62521 (C09), 8233ec8 (C14), 451cfab (C20), 8cd4125, ba9b864, d961e7d (C13); one open known finding (C13: directory named like a sample); see known_findings.json and DESIGN.md §3.7, §6. ./check exits 2 (never a VIOLATION line) on build, watchdog or determinism trouble.",
+        "notes": "Technique: deterministic simulation with fault injection. fix: commits in /repo: fc96a8a (C08), 3e88988 (C10), 4d62521 (C09), 8233ec8 (C14), 451cfab (C20), 8cd4125, ba9b864, d961e7d (C13); one open known finding (C13: directory named like a sample); see known_findings.json and DESIGN.md §3.7, §6. ./check exits 2 (never a VIOLATION line) on build, watchdog or determinism trouble. Thorough runs are time-boxed per property (10-25 minutes of case loop, 'truncated' in the evidence when the plan is larger; VERIF_THOROUGH_BUDGET=<seconds> or --budget overrides, 0 removes the box); another VERIF_SEED explores another part of the space.",
     }
     json.dump(m, open(os.path.join(VERIF, "MANIFEST.json"), "w"), indent=1, ensure_ascii=False)
     print("MANIFEST.json written: %d checks, %d not_applicable" % (len(checks), len(na)))
